@@ -1,23 +1,30 @@
 """C03 — capability decisions follow the documented precedence for every database state."""
-import contextlib, io, itertools
+import contextlib, copy, io, itertools
 import boot
 from lib import wire
 
 TABLES = ['T03']
-RULE = ('databases sampled from the product: recognised user (capability subset of a 14-element pool incl. owner, anti, channel, '
-        'anti-channel, mixed-case and rfc1459-pair spellings; ignore; secure; hostmask match / login only / no match) x channel entries '
-        '(capability subsets, defaultAllow) x global default set x registeredUsers set x default flag x the three ignore* flags x asked '
-        'capability (plain, anti, channel, anti-channel, case variants, hostile strings).  Each case: real ircdb.checkCapability (fresh '
-        'UsersDictionary/ChannelsDictionary, real conf registry) vs extracted model; direct oracle = anti-symmetry, owner rule, case '
-        'variants, totality, and an independent decision-list spec evaluated on the real objects.  non-trivial = distinct (db, cap, flags)')
+RULE = ('corpus first (shapes of past seeded changes: stranger / secure-demoted / duplicate-match sender x channel capability without '
+        'explicit setting x ignoreDefaultAllow; ignored owner x ignoreOwner; channel op x ignoreChannelOp), then databases sampled '
+        'from the product: sender (none / account that does not match / match / login only / secure login only = demoted / secure match / '
+        'two accounts match = DuplicateHostmask; capability subset of a 14-element pool incl. owner, anti, channel, anti-channel, '
+        'mixed-case and rfc1459-pair spellings; ignore) x channel entries (capability subsets, defaultAllow) x global default set x '
+        'registeredUsers set x default flag x the three ignore* flags (45% non-default, ignoreDefaultAllow in about a quarter) x asked '
+        'capability (plain, anti, channel, anti-channel, case variants, hostile strings), plus a stream of the AutoMode call shape '
+        '(ignoreDefaultAllow, unrecognised sender, channel capabilities, channels with few explicit settings).  Each case: real '
+        'ircdb.checkCapability (fresh UsersDictionary/ChannelsDictionary, real conf registry) vs extracted model; direct oracle = '
+        'totality, case variants, anti-symmetry on the flag triples of C03_anti_opposite_flags, and an independent decision-list spec '
+        'for EVERY flag triple evaluated on the real objects.  non-trivial = distinct (db, cap, flags)')
 TRUSTED = ['user lookup (users.getUser, checkHostmask) enters this model as an input taken from the real objects; it is modelled in C04',
            "str.lower() on channel names is modelled for ASCII only (generators use ASCII-cased channel names)"]
 ASSUMPTIONS = ['world.testing off (the testing shortcut of checkCapability is not modelled)']
 EXPLANATION = 'C03: model of the capability algebra and ircdb.checkCapability; theorems in coq/C03/Props.v'
 LEVEL_TEXT = ('Coq theorems over an executable Gallina model of the capability string algebra, CapabilitySet/UserCapabilitySet and '
               'ircdb.checkCapability/_checkCapabilityForUnknownUser, for every database, capability string and flag setting: totality on '
-              'well-formed capabilities, capability/anti-capability give opposite answers (default flags, sets built by add), owner rule, '
-              'case-insensitivity, refinement of a readable decision-list spec.  Tie: regenerated fold table / whitespace set / chantypes / '
+              'well-formed capabilities, capability/anti-capability give opposite answers (sets built by add; every flag triple without '
+              'ignoreDefaultAllow, and with it for unrecognised senders and plain capabilities; refuted by a witness for the rest), owner '
+              'rule, case-insensitivity, refinement of a readable decision-list spec for all three ignore* flags and both members of a '
+              '(capability, anti-capability) pair.  Tie: regenerated fold table / whitespace set / chantypes / '
               'defaultOff + differential run of the extracted model against the real function on sampled databases.')
 LEVEL_NOTE = ('Trusted: Coq kernel, gen_tables.py, extraction + driver, harness; user lookup is an input (C04); conf registry plumbing is '
               'exercised, not modelled; non-ASCII str.lower() outside the model.')
@@ -55,8 +62,16 @@ def nested(c):
 CLASSES = {'nested_channel_capability': lambda inp: 'cap' in inp and nested(inp['cap'])}
 
 
-def gen_db(rng):
-    kind = rng.choice(['none', 'match', 'match', 'match', 'authonly', 'secure-authonly', 'secure-match'])
+UNKNOWN_KINDS = ('none', 'nomatch', 'secure-authonly', 'dup')
+
+
+def gen_db(rng, kind=None):
+    """kind of sender: none (empty user database), nomatch (an account exists, the hostmask is not his), match, authonly
+    (reached through a login), secure-authonly (secure account reached through a login: demoted to unknown), secure-match,
+    dup (two accounts match the hostmask: DuplicateHostmask, treated as unknown)"""
+    if kind is None:
+        kind = rng.choice(['none', 'nomatch', 'match', 'match', 'match', 'match', 'authonly', 'secure-authonly', 'secure-authonly',
+                           'secure-match', 'dup'])
     caps = [c for c in USER_POOL if rng.random() < 0.22]
     chans = {}
     for name in ['#chan', '#other']:
@@ -67,6 +82,15 @@ def gen_db(rng):
             'defaults': [c for c in DEF_POOL if rng.random() < 0.3],
             'registered': [c for c in DEF_POOL[2:] if rng.random() < 0.2],
             'flag': rng.random() < 0.7}
+
+
+def gen_flags(rng):
+    r = rng.random()
+    if r < 0.55:
+        return [False, False, False]
+    if r < 0.70:
+        return [rng.random() < 0.5, rng.random() < 0.5, True]          # the AutoMode call shape: ignoreDefaultAllow
+    return [rng.random() < 0.5, rng.random() < 0.5, rng.random() < 0.5]
 
 
 def build(ircdb, conf, g):
@@ -81,11 +105,23 @@ def build(ircdb, conf, g):
         kind = g['user']['kind']
         if kind in ('match', 'secure-match'):
             u.addHostmask(H_MATCH)
+        elif kind == 'nomatch':
+            u.addHostmask('someone!else@*')
+        elif kind == 'dup':
+            u.addHostmask('nick!*@*')
         else:
             u.addHostmask('someone!else@*')
             u.addAuth(H_MATCH)
         u.secure = kind.startswith('secure')
         users.setUser(u)
+        if kind == 'dup':
+            # a second account whose (different) pattern matches the same hostmask: getUser raises DuplicateHostmask
+            # (and drops both patterns), checkCapability must treat the sender as unknown
+            v = users.newUser()
+            v.name = 'bob'
+            v.addCapability('owner')
+            v.addHostmask('*!user@host.example')
+            users.setUser(v)
     for name, c in g['chans'].items():
         ch = ircdb.IrcChannel()
         for cap in c['caps']:
@@ -136,13 +172,29 @@ def parts(ircdb, c):
     return ch, (cap[1:] if anti else cap), anti
 
 
-def spec(ircdb, ircutils, g, snap, cap):
-    """independent decision list (default flags), evaluated on the real data: the property text"""
+def effective_user(snap):
+    """the account the sender is treated as: none if unknown / ambiguous, or secure with a non-matching hostmask"""
+    uv, hostok = snap[0], snap[1]
+    user = uv[0] if uv else None
+    if user is not None and user[2] and not hostok:
+        user = None
+    return user
+
+
+def spec(ircdb, ircutils, g, snap, cap, fl=(False, False, False)):
+    """independent decision list for ALL flag triples, evaluated on the real data: the property text with checkCapability's
+    docstring applied (ignoreOwner: no "owners have all capabilities"; ignoreChannelOp: no "channel ops have all channel
+    capabilities"; ignoreDefaultAllow: every default-allow fallback answers as if it were False).  Mirrors coq/C03/Spec.v
+    spec_flags, including its notes (1)-(3)."""
+    ignoreOwner, ignoreChannelOp, ignoreDefaultAllow = fl
     fold = ircutils.toLower
     ch, base, anti = parts(ircdb, cap)
     full = fold(base if ch is None else ch + ',' + base)      # the non-anti form, folded
     fullanti = fold('-' + base if ch is None else ch + ',-' + base)
     base_f, antibase_f = fold(base), fold('-' + base)
+
+    def holds(b):                                             # "the sender has the capability: b", read for the asked form
+        return b != anti
 
     def explicit(s, pos, neg):
         if pos in s:
@@ -151,39 +203,40 @@ def spec(ircdb, ircutils, g, snap, cap):
             return False
         return None
     uv, hostok, chans, D, R, flag = snap
-    user = uv[0] if uv else None
-    if user is not None and user[2] and not hostok:
-        user = None
+    user = effective_user(snap)
     if user is not None:
         caps, ignore, _ = user
-        is_owner_word = full in ('owner',)
-        if is_owner_word or 'owner' in caps or explicit(caps, full, fullanti) is not None:
-            if ignore:
-                return anti                                   # ignored: nothing (only anti-capabilities "hold")
-            if is_owner_word:
-                return ('owner' in caps) != anti
-            if 'owner' in caps:
-                return not anti                               # owner: everything, no anti-capability
-            e = explicit(caps, full, fullanti)
-            return e != anti
-        if ch is not None:
-            chanop, antichanop = fold(ch + ',op'), fold(ch + ',-op')
-            if not ignore and ('owner' in caps or chanop in caps):
-                return not anti                               # channel op counts as everything in the channel
+        owner = 'owner' in caps
+        e = explicit(caps, full, fullanti)
+        if full == 'owner':
+            return holds(owner and not ignore)                # asking for 'owner' itself
+        if owner and not ignoreOwner:
+            return holds(not ignore)                          # owner: everything, no anti-capability (ignored: nothing)
+        if e is not None:
+            return holds(e and not ignore)                    # explicit user (anti)capability
+        if owner and ignore:
+            return holds(False)                               # note (3): the membership test never sees ignoreOwner
+        if ch is not None and not ignoreChannelOp and not ignore:
+            # channel op counts as everything in the channel; note (2): the channel-op test never sees ignoreOwner
+            if owner or fold(ch + ',op') in caps:
+                return holds(True)
     if ch is not None:
         c = dict((k, v) for k, v in chans).get(fold(ch.lower()), [['-op', '-halfop', '-voice', '-protected'], True])
         e = explicit(c[0], base_f, antibase_f)
         if e is not None:
-            return e != anti
-        return c[1] != anti
+            return holds(e)
+        if ignoreDefaultAllow:
+            # note (1): for a recognised sender the code answers plain False (also for the anti-capability)
+            return False if user is not None else holds(False)
+        return holds(c[1])
     e = explicit(D, base_f, antibase_f)
     if e is not None:
-        return e != anti
+        return holds(e)
     if user is not None:
         e = explicit(R, base_f, antibase_f)
         if e is not None:
-            return e != anti
-    return flag != anti
+            return holds(e)
+    return holds(flag and not ignoreDefaultAllow)
 
 
 def variants(c):
@@ -196,8 +249,11 @@ def run_case(ctx, mods, g, cap, fl, mout, kind, asked_h=H_MATCH):
     ircdb, conf, ircutils = mods
     inp = {'db': g, 'cap': cap, 'flags': fl, 'hostmask': asked_h}
     ctx.case(kind, inp)
+    # the snapshot looks the sender up (and, for a duplicate match, getUser drops the offending patterns): take it from its
+    # own copy so that checkCapability below is the first to look the sender up
     users, channels = build(ircdb, conf, g)
     snap = snapshot(ircdb, conf, ircutils, users, channels, asked_h)
+    users, channels = build(ircdb, conf, g)
     ir = impl_check(ircdb, users, channels, asked_h, cap, fl)
     if mout is not None:
         mr = wire.r(mout, bool)
@@ -215,18 +271,20 @@ def run_case(ctx, mods, g, cap, fl, mout, kind, asked_h=H_MATCH):
         r2 = impl_check(ircdb, users, channels, asked_h, v, fl)
         if r2 != ir:
             ctx.fail(inp, 'case variant %r answers %r, %r answers %r' % (v, r2, cap, ir))
-    if fl == [False, False, False]:
-        # capability and anti-capability give opposite answers
-        if not ircdb.isAntiCapability(cap):
-            users, channels = build(ircdb, conf, g)
-            anti = ircdb.makeAntiCapability(cap)
-            r3 = impl_check(ircdb, users, channels, asked_h, anti, fl)
-            if r3[0] != 'ok' or r3[1] == ir[1]:
-                ctx.fail(inp, '%r -> %r but %r -> %r (not opposite)' % (cap, ir, anti, r3))
-        # documented precedence
-        want = spec(ircdb, ircutils, g, snap, cap)
-        if want != ir[1]:
-            ctx.fail(inp, 'precedence spec says %r, checkCapability says %r' % (want, ir[1]))
+    # capability and anti-capability give opposite answers: every flag triple without ignoreDefaultAllow, and with it unless
+    # the sender is a recognised account and the capability a channel capability (C03_anti_opposite_flags; the remaining case
+    # is C03_anti_opposite_ignoreDefaultAllow_refuted, a recorded non-finding)
+    if not ircdb.isAntiCapability(cap) and (not fl[2] or effective_user(snap) is None or not ircdb.isChannelCapability(cap)):
+        users, channels = build(ircdb, conf, g)
+        anti = ircdb.makeAntiCapability(cap)
+        r3 = impl_check(ircdb, users, channels, asked_h, anti, fl)
+        if r3[0] != 'ok' or r3[1] == ir[1]:
+            ctx.fail(inp, '%r -> %r but %r -> %r (not opposite)' % (cap, ir, anti, r3))
+    # documented precedence, for every flag triple
+    want = spec(ircdb, ircutils, g, snap, cap, fl)
+    if want != ir[1]:
+        ctx.fail(inp, 'precedence spec says %r, checkCapability says %r (flags ignoreOwner=%r ignoreChannelOp=%r '
+                      'ignoreDefaultAllow=%r)' % (want, ir[1], fl[0], fl[1], fl[2]))
 
 
 def snapshot_wire(mods, g, h):
@@ -235,19 +293,76 @@ def snapshot_wire(mods, g, h):
     return snapshot(ircdb, conf, ircutils, users, channels, h)
 
 
+def _db(kind, caps=(), ignore=False, chans=None, defaults=(), registered=(), flag=True):
+    return {'user': None if kind == 'none' else {'caps': list(caps), 'ignore': ignore, 'kind': kind},
+            'chans': {'#chan': {'caps': [], 'default': True}} if chans is None else chans,
+            'defaults': list(defaults), 'registered': list(registered), 'flag': flag}
+
+
+def corpus():
+    """past witnesses and the shapes of seeded changes, run first: (db, cap, flags)"""
+    out = []
+    # seeded change C03_5 (_checkCapabilityForUnknownUser drops ignoreDefaultAllow on the channel branch): a sender who is not a
+    # recognised account (unknown / secure-demoted / duplicate match), a channel capability the channel says nothing about,
+    # defaultAllow on, ignoreDefaultAllow (the AutoMode call shape): the stranger must not be granted '#chan,foo'
+    for kind in UNKNOWN_KINDS:
+        for caps in ((), ('#chan,op',), ('owner',)):
+            for chans in (None, {}, {'#chan': {'caps': ['bar', '-baz'], 'default': True}}, {'#chan': {'caps': [], 'default': False}}):
+                for cap in ('#chan,foo', '#chan,-foo', '#CHAN,Foo'):
+                    for fl in ([True, True, True], [False, False, True]):
+                        out.append((_db(kind, caps, chans=chans), cap, fl))
+    # explicit channel settings still win for the stranger under ignoreDefaultAllow
+    for kind in UNKNOWN_KINDS:
+        for cc in (['foo'], ['-foo']):
+            for cap in ('#chan,foo', '#chan,-foo'):
+                out.append((_db(kind, chans={'#chan': {'caps': cc, 'default': True}}), cap, [False, False, True]))
+    # ignoreDefaultAllow on the plain branches (global default flag), known and unknown senders
+    for kind in ('none', 'match', 'dup'):
+        for cap in ('foo', '-foo', 'baz'):
+            out.append((_db(kind, defaults=['baz'], registered=['-foo'] if kind == 'match' else []), cap, [False, False, True]))
+    # the recorded asymmetry (non-finding): recognised sender, channel capability, nothing explicit, ignoreDefaultAllow
+    for cap in ('#chan,foo', '#chan,-foo'):
+        out.append((_db('match'), cap, [False, False, True]))
+    # notes (2)/(3) of spec_flags: ignoreOwner reaches neither the channel-op test nor the membership test
+    for fl in ([True, False, False], [True, True, False], [True, True, True], [False, True, False]):
+        for ignore in (False, True):
+            for cap in ('foo', '-foo', '#chan,foo', '#chan,-foo', 'owner', '-owner'):
+                out.append((_db('match', ['owner'], ignore=ignore), cap, fl))
+                out.append((_db('match', ['owner', '-foo', '#chan,-foo'], ignore=ignore), cap, fl))
+    # channel op with / without ignoreChannelOp; '#chan,-op' holder is not an op
+    for fl in ([False, False, False], [False, True, False], [False, True, True], [False, False, True]):
+        for caps in (['#chan,op'], ['#chan,-op'], ['#Chan,op', '#chan,-foo']):
+            for cap in ('#chan,foo', '#chan,-foo', '#other,foo'):
+                out.append((_db('match', caps), cap, fl))
+    # finding F21's witness shape stays in the stream
+    out.append((_db('none', chans={'#chan': {'caps': ['#other,-foo'], 'default': True}}), '#chan,#other,foo', [False, False, False]))
+    return out
+
+
+CHAN_ASK = [c for c in ASK if c.startswith('#') and c.count(',') == 1 and not c.endswith(',')]
+
+
 def run(ctx):
     mods = _mods()
     ircdb, conf, ircutils = mods
     rng = ctx.rng
     saved = (list(conf.supybot.capabilities()), conf.supybot.capabilities.default())
     try:
-        cases = []
-        for _ in range(ctx.n(2500)):
+        cases = [(g, cap, fl, 'corpus') for g, cap, fl in corpus()]
+        for _ in range(ctx.n(2000)):
             g = gen_db(rng)
             for cap in rng.sample(ASK, 6) + rng.sample(HOSTILE, 1):
-                r = rng.random()
-                fl = [False, False, False] if r < 0.7 else [rng.random() < 0.5, rng.random() < 0.5, rng.random() < 0.5]
+                fl = gen_flags(rng)
                 cases.append((g, cap, fl, 'default-flags' if fl == [False] * 3 else 'ignore-flags'))
+        # the AutoMode call shape on senders that are not recognised accounts: ignoreDefaultAllow, channel capabilities, channels
+        # with few explicit settings (so that the default-allow fallback is what decides)
+        for _ in range(ctx.n(350)):
+            g = gen_db(rng, rng.choice(UNKNOWN_KINDS))
+            for name in list(g['chans']):
+                if rng.random() < 0.7:
+                    g['chans'][name]['caps'] = [c for c in g['chans'][name]['caps'] if c in ('op', 'bar', '-x{y}')]
+            for cap in rng.sample(CHAN_ASK, 4) + rng.sample(ASK, 1):
+                cases.append((g, cap, [rng.random() < 0.5, rng.random() < 0.5, True], 'automode-unknown'))
         wcases = [[0, [snapshot_wire(mods, g, H_MATCH), cap, fl]] for g, cap, fl, _ in cases]
         outs = ctx.model(wcases)
         for (g, cap, fl, kind), mo in zip(cases, outs):
@@ -300,3 +415,62 @@ def replay(ctx, inp):
     if 'db' in inp:
         run_case(sub, mods, inp['db'], inp['cap'], inp['flags'], None, 'replay', inp.get('hostmask', H_MATCH))
     return sub.failures[0]['detail'] if sub.failures else None
+
+
+def shrink(ctx, inp):
+    """greedy: drop capabilities / channels / default entries / flags while the property still fails on the implementation"""
+    if 'db' not in inp:
+        return inp
+    cur = copy.deepcopy(inp)
+
+    def fails(x):
+        try:
+            return replay(ctx, x) is not None
+        except Exception:
+            return False
+    if not fails(cur):
+        return inp
+    progress = True
+    while progress:
+        progress = False
+        cands = []
+        db = cur['db']
+        if db['user'] is not None:
+            for i in range(len(db['user']['caps'])):
+                cands.append(('ucap', i))
+            if db['user']['ignore']:
+                cands.append(('unignore', None))
+            if not db['user']['caps'] and not db['user']['ignore'] and db['user']['kind'] == 'nomatch':
+                cands.append(('nouser', None))
+        for name in list(db['chans']):
+            cands.append(('delchan', name))
+            for i in range(len(db['chans'][name]['caps'])):
+                cands.append(('ccap', (name, i)))
+        for key in ('defaults', 'registered'):
+            for i in range(len(db[key])):
+                cands.append((key, i))
+        for i in range(3):
+            if cur['flags'][i]:
+                cands.append(('flag', i))
+        for what, arg in cands:
+            t = copy.deepcopy(cur)
+            d = t['db']
+            if what == 'ucap':
+                del d['user']['caps'][arg]
+            elif what == 'unignore':
+                d['user']['ignore'] = False
+            elif what == 'nouser':
+                d['user'] = None
+            elif what == 'delchan':
+                del d['chans'][arg]
+            elif what == 'ccap':
+                del d['chans'][arg[0]]['caps'][arg[1]]
+            elif what == 'flag':
+                t['flags'][arg] = False
+            else:
+                del d[what][arg]
+            if fails(t):
+                cur, progress = t, True
+                break
+    return cur
+
